@@ -221,22 +221,30 @@ theorem proto_counter_fixed :
     ∧ (sysvProto sysvLay none [l, l, l, l, l, l, l, sd]).2.getLast? = some (.regs [.sse]) := by
   decide +kernel
 
-/-- `enum_base_meets_gcc`: for every representable range of enumerators (least ≤ 0 ≤ greatest, as
-c2mir accumulates them) the enumerated type has the size the platform compiler gives it — 4 bytes
-exactly when all values fit `int` or all fit `unsigned int` — and, when 4 bytes wide, the same
-signedness (`unsigned int` iff there is no negative enumerator). -/
+/-- `enum_base_meets_gcc` (full statement since repo commit 665ec29a): for every range of
+enumerators (least ≤ 0 ≤ greatest, as c2mir accumulates them, within the 64-bit types) c2mir rejects
+the declaration exactly when the platform compiler diagnoses "enumeration values exceed range of
+largest integer" (no 64-bit type holds the range), and otherwise the enumerated type has the
+platform compiler's underlying type — same size and same signedness: `unsigned int` / `unsigned long`
+iff there is no negative enumerator, 4 bytes iff all values fit `int` or all fit `unsigned int`. -/
 theorem enum_base_meets_gcc (mn mx : Int) (h0 : mn ≤ 0) (h1 : 0 ≤ mx)
-    (hmn : -9223372036854775808 ≤ mn) (hmx : mx ≤ 18446744073709551615)
-    (hboth : mn < 0 → mx ≤ 9223372036854775807) :
-    (c2mEnumBase mn mx).size = (gccEnumBase mn mx).size
-    ∧ ((gccEnumBase mn mx).size = 4 → c2mEnumBase mn mx = gccEnumBase mn mx) :=
-  enumBase_size mn mx h0 h1 hmn hmx hboth
+    (hmn : -9223372036854775808 ≤ mn) (hmx : mx ≤ 18446744073709551615) :
+    c2mEnumOk mn mx = gccEnumOk mn mx
+    ∧ (gccEnumOk mn mx = true → c2mEnumBase mn mx = gccEnumBase mn mx) :=
+  enumBase_eq mn mx h0 h1 hmn hmx
+
+/-- the rule before 665ec29a (findings C08-41, C08-42) with its witnesses: `enum {A, B = 0x100000000}`
+was `long` (gcc: `unsigned long`), `enum {A = -1, B = LLONG_MAX}` was rejected (gcc: `long`) -/
+theorem enum_old_rule_witnesses :
+    c2mEnumBaseOld 0 4294967296 = .long ∧ gccEnumBase 0 4294967296 = .ulong
+    ∧ c2mEnumOkOld (-1) 9223372036854775807 = false ∧ gccEnumOk (-1) 9223372036854775807 = true
+    ∧ c2mEnumBase 0 4294967296 = .ulong ∧ c2mEnumOk (-1) 9223372036854775807 = true := by decide
 
 /-- the boundaries: `enum {A = -1, B = INT_MAX}` is an `int`, `enum {B = INT_MAX + 1}` and
 `enum {B = UINT_MAX}` are `unsigned int`, one more needs 8 bytes -/
 example : c2mEnumBase (-1) 2147483647 = .int ∧ c2mEnumBase (-1) 2147483648 = .long
     ∧ c2mEnumBase 0 2147483648 = .uint ∧ c2mEnumBase 0 4294967295 = .uint
-    ∧ (c2mEnumBase 0 4294967296).size = 8 ∧ c2mEnumBase (-2147483648) 0 = .int
+    ∧ c2mEnumBase 0 4294967296 = .ulong ∧ c2mEnumBase (-2147483648) 0 = .int
     ∧ c2mEnumBase (-2147483649) 0 = .long := by decide
 
 /-- `x87_scalar_takes_no_register`: a `long double` scalar parameter goes to the stack and consumes
